@@ -56,7 +56,7 @@ _NAMES = ["T2", "T0", "T1"]          # configuration order != sorted order
 _CACHE_DIR = ".bldfm_cache"
 
 
-def build_config(n_towers, n_steps, use_cache, footprint, halo, repeat_met, seed, workers):
+def build_config(n_towers, n_steps, use_cache, footprint, halo, repeat_met, seed, workers, pattern=None):
     import random
     rng = random.Random(seed)
     ref_lat, ref_lon = 50.95, 11.586
@@ -81,13 +81,20 @@ def build_config(n_towers, n_steps, use_cache, footprint, halo, repeat_met, seed
 
     met = dict(ustar=series([0.3, 0.4, 0.5]), mol=series([-40.0, -150.0, 200.0]),
                wind_speed=series([2.5, 3.5, 5.0]), wind_dir=series([225.0, 270.0, 300.0]))
+    if pattern:
+        # a record in which whole forcings recur ("ABCADBA": the conditions of step 0 again at steps 3 and 6): every
+        # letter is one (ustar, mol, wind_speed, wind_dir) quadruple
+        quad = {c: (0.25 + 0.05 * j, [-40.0, -150.0, 200.0, -80.0, 400.0][j % 5], 2.5 + 0.5 * j, [225.0, 270.0, 300.0, 250.0, 285.0][j % 5])
+                for j, c in enumerate(sorted(set(pattern)))}
+        met = dict(ustar=[quad[c][0] for c in pattern], mol=[quad[c][1] for c in pattern],
+                   wind_speed=[quad[c][2] for c in pattern], wind_dir=[quad[c][3] for c in pattern])
     if n_steps == 1 and rng.random() < 0.5:
         met = {k: v[0] for k, v in met.items()}
     else:
         for k in ("mol", "wind_dir"):     # scalars broadcast over the series
             if rng.random() < 0.25:
                 met[k] = met[k][0]
-    if rng.random() < 0.5:
+    if rng.random() < 0.5 or pattern:
         met["timestamps"] = ["2024-07-01T%02d:00:00" % (6 + k) for k in range(n_steps)]
     sol = dict(closure="MOST", footprint=bool(footprint), precision=rng.choice(["single", "double"]))
     if not footprint:
@@ -172,13 +179,15 @@ def _compare(got, want):
 
 @S.kind("driver")
 def driver(n_towers, n_steps, strategy, workers, parent_threads, use_cache, footprint, halo,
-           repeat_met, prewarm, seed, delay_ms, workers_from_config=False, schedule="hash"):
+           repeat_met, prewarm, seed, delay_ms, workers_from_config=False, schedule="hash", pattern=None):
     import bldfm.config as cfg
     import bldfm.interface as itf
     from bldfm.config_parser import parse_config_dict
     from bldfm.fft_manager import reset_fft_manager
 
-    raw = build_config(n_towers, n_steps, use_cache, footprint, halo, repeat_met, seed, workers)
+    if pattern:
+        n_steps = len(pattern)
+    raw = build_config(n_towers, n_steps, use_cache, footprint, halo, repeat_met, seed, workers, pattern=pattern)
     config = parse_config_dict(raw)
     names = [t["name"] for t in raw["towers"]]
     _clear_cache()
@@ -282,6 +291,18 @@ def _reverse_cases(rng, tier):
 def generate(tier, rng):
     for c in _reverse_cases(rng, tier):
         yield c
+    # records in which whole forcings recur, in patterns whose first-occurrence grouping is not an involution
+    pats = ["ABCADBA", "ABBA", "ABCA", "AABCBCA", "ABCABC"] if tier == "thorough" else ["ABCADBA", "ABBA", "ABCA"]
+    k = 0
+    for pat in pats:
+        for strategy in ("timeseries", "multitower", "towers", "time", "both"):
+            if tier != "thorough" and (k % 2) and strategy in ("time", "both", "multitower"):
+                k += 1
+                continue
+            c = _case(rng, 1 if strategy == "timeseries" else 2, len(pat), strategy, 1 if strategy in ("timeseries", "multitower") else 3, k)
+            c.update(pattern=pat, delay_ms=0, prewarm=False)
+            yield "driver", c
+            k += 1
     k = 0
     if tier == "thorough":
         shapes = [(a, b) for a in (1, 2, 3) for b in (1, 2, 3)]
